@@ -1,7 +1,9 @@
 SPECIFICATION Spec
 CONSTANTS
   MaxLen = 4
-  MaxLenW = 4
+  MaxLenB = 4
+  MaxLenW = 3
+  LawLen = 4
   MaxBytes = 3
   MaxMove = 5
   WideHi = 767
